@@ -476,8 +476,8 @@ def concurrent_calls(pairs, bound, granularity, max_exec=None):
     return stats_all, viols
 
 
-def _cc_parallel(pairs, bound):
-    parts = core.pmap(lambda p: concurrent_calls([p], bound, 'call'), pairs)
+def _cc_parallel(pairs, bound, max_exec=None):
+    parts = core.pmap(lambda p: concurrent_calls([p], bound, 'call', max_exec=max_exec), pairs)
     cc = {'executions': 0, 'max_points': 0, 'pairs': {}}
     viols = []
     for c, v in parts:
@@ -560,8 +560,8 @@ def run(tier, seed):
     else:
         pairs = [(a, b) for i, a in enumerate(names) for b in names[i:]]
         cc, v = _cc_parallel(pairs, 1)
-        cc2, v2b = concurrent_calls([('format-spaces', 'format-spaces'), ('parse', 'format-reindent'),
-                                     ('format-python', 'format-python')], 2, 'call', max_exec=60000)
+        cc2, v2b = _cc_parallel([('format-spaces', 'format-spaces'), ('parse', 'format-reindent'),
+                                 ('format-python', 'format-python'), ('split', 'format-aligned')], 2, max_exec=25000)
         cc['bound2'] = cc2
         v += v2b
     viols += v
